@@ -131,8 +131,8 @@ func (rn *runner) tick() {
 	n := int(atomic.AddInt64(&rn.opCnt, 1)) - 1
 	for i := range rn.sc.Faults {
 		f := rn.sc.Faults[i]
-		if f.ArmAt == n && n > 0 {
-			rn.arm(f)
+		if f.ArmAt == n && n > 0 && atomic.LoadInt32(&rn.healed) == 0 {
+			rn.arm(f) // (no new faults once the storage was healed because a call stalled)
 		}
 	}
 	if rn.sc.CloseAt == n {
